@@ -9,7 +9,7 @@ import (
 
 // C04 — operands are evaluated exactly once, in source order, conditions eagerly.
 func c04Cfg(thorough bool) gen.Cfg {
-	c := gen.Cfg{MaxStmts: 16, MaxDepth: 3, ExprDepth: 3, Funcs: true, MaxFuncs: 2, Slices: true, StrOps: true, LoopBudget: 8, Tracers: true, ErrSpell: true, BareExpr: true}
+	c := gen.Cfg{MaxStmts: 16, MaxDepth: 3, ExprDepth: 3, Funcs: true, MaxFuncs: 2, Slices: true, StrOps: true, LoopBudget: 8, Tracers: true, ErrSpell: true, BareExpr: true, Panics: true}
 	if thorough {
 		c.MaxStmts, c.MaxDepth, c.MaxFuncs, c.LoopBudget = 30, 4, 3, 16
 	}
